@@ -195,6 +195,8 @@ def run(ctx):
     ctx.check_proof("Davidson_proofs")         # Bounded, ReturnsBest, Terminates for every size / budget
     from vlib import resulthistory
     resulthistory.replay(ctx, ["symeig:exact", "symeig:davidson", "svd"], "eig")
+    from vlib import layoutinv
+    layoutinv.replay(ctx, ["symeig:exact", "symeig:davidson", "svd"], "eig")
     c2 = dict(base)
     c2["KeepBest"] = False
     t, cf = tlcmod.gen_mc(ctx.work, "Davidson", "MC_Dav_dev", c2, invariants=["ReturnsBest"])
